@@ -142,6 +142,10 @@ pub enum Tamper {
     SwapShortIds,
     /// the last short id replaced by the id of a transaction that is not in the block
     ForeignShortId,
+    /// the last short id left out (fewer positions than the genuine compact block)
+    DropShortId,
+    /// one more short id (of a transaction that is not in the block) appended
+    ExtraShortId,
 }
 
 #[derive(Clone, Copy, Debug, PartialEq, Eq, Serialize, Deserialize)]
@@ -236,6 +240,8 @@ fn tamper() -> impl Strategy<Value = Tamper> {
         Just(Tamper::DropUncle),
         Just(Tamper::SwapShortIds),
         Just(Tamper::ForeignShortId),
+        Just(Tamper::DropShortId),
+        Just(Tamper::ExtraShortId),
     ]
 }
 
@@ -1534,6 +1540,10 @@ impl<'a> Run<'a> {
                 }
                 short_ids[l - 1] = foreign_tx(salt + 8).proposal_short_id();
             }
+            Tamper::DropShortId => {
+                short_ids.pop()?;
+            }
+            Tamper::ExtraShortId => short_ids.push(foreign_tx(salt + 9).proposal_short_id()),
         }
         let out = match new_ext {
             Some(e) => packed::CompactBlockV1::new_builder()
@@ -1567,6 +1577,8 @@ impl<'a> Run<'a> {
             Some("DropUncle") => Tamper::DropUncle,
             Some("SwapShortIds") => Tamper::SwapShortIds,
             Some("ForeignShortId") => Tamper::ForeignShortId,
+            Some("DropShortId") => Tamper::DropShortId,
+            Some("ExtraShortId") => Tamper::ExtraShortId,
             _ => t,
         };
         let Some(cb) = Self::tampered_cb(s, t, s.bi as u64 * 100) else {
@@ -1930,7 +1942,9 @@ impl<'a> Run<'a> {
         if let Err(mut v) = r {
             // In a session in which a liar announced the genuine header with another body, the
             // outcome is attributed to that announcement (one signature per kind of change).
-            if let (Some(t), false) = (s.tampered, v.signature.starts_with("harness:")) {
+            // (a panic is never attributed away: it keeps its own signature)
+            let is_panic = v.signature.starts_with("panic:") || v.signature.starts_with("node:thread-panicked");
+            if let (Some(t), false) = (s.tampered, v.signature.starts_with("harness:") || is_panic) {
                 // two different outcomes: a block other than the committed one is handed on (stored,
                 // tip, broadcast), or the relay of the committed block by honest peers is obstructed
                 let another_block = [
